@@ -1498,6 +1498,26 @@ func GenerateBodies(t Tape, p *Profile, n int) (*Program, []string) {
 	}
 	var names []string
 	for i := 0; i < n; i++ {
+		if t.Choose(6) == 0 {
+			// a vararg body that hands everything it is given on: yields all its arguments, then yields them again
+			// behind one more value, then returns whatever the last resume gives it (names BVn: the scheduler gives
+			// such bodies long argument lists)
+			g.use("vararg_body_many_values")
+			c, l, a, b := g.fresh("c"), g.fresh("l"), g.fresh("a"), g.fresh("b")
+			g.prog.NFuncs++
+			fd := &FuncDef{ID: g.prog.NFuncs, IsVararg: true, Body: []Stmt{
+				&Call{Names: []string{c}, Fn: Var{"select"}, Args: []Expr{Str{"#"}, Vararg{}}},
+				&Call{Names: []string{l}, Fn: Var{"select"}, Args: []Expr{Var{c}, Vararg{}}},
+				&Call{Fn: Var{"emit"}, Args: []Expr{Str{"va"}, Var{c}, Var{l}}},
+				&Call{Names: []string{a, b}, Fn: Var{"coyield"}, Args: []Expr{Vararg{}}},
+				&Call{Fn: Var{"emit"}, Args: []Expr{Str{"va2"}, Var{a}, Var{b}}},
+				&ReturnCall{Fn: Var{"coyield"}, Args: []Expr{Var{a}, Vararg{}}}}}
+			ln := g.fresh("vb")
+			gn := fmt.Sprintf("BV%d", i+1)
+			body = append(body, &Local{Names: []string{ln}, Exprs: []Expr{Func{fd}}}, &Assign{Targets: []Expr{Var{gn}}, Exprs: []Expr{Var{ln}}})
+			names = append(names, gn)
+			continue
+		}
 		name, _, st := g.coBody(fc)
 		body = append(body, st...)
 		gn := fmt.Sprintf("B%d", i+1)
